@@ -223,6 +223,54 @@ def run(ctx):
         if not safe(good):
             rep("bonds / colouring are not the ground-state honeycomb set-up")
         ctx.case(name)
+    # ---- every call returns fresh objects: the first result is overwritten in place, a second call must still return the original values
+    from koala.lattice import Lattice as _Lat
+
+    def snap(r):
+        if isinstance(r, _Lat):
+            return ("L", r.vertices.positions.copy(), r.edges.indices.copy(), r.edges.crossing.copy())
+        if isinstance(r, np.ndarray):
+            return ("A", r.copy())
+        if isinstance(r, (tuple, list)):
+            return tuple(snap(x) for x in r)
+        return ("O", repr(r))
+
+    def clobber(r):
+        arrs = [r.vertices.positions, r.edges.indices, r.edges.crossing] if isinstance(r, _Lat) else [r] if isinstance(r, np.ndarray) else []
+        for a in arrs:
+            try:
+                a[...] = (a + 1) * -3 if a.dtype.kind in "iuf" else a
+            except Exception:
+                pass
+        if isinstance(r, (tuple, list)):
+            for x in r:
+                clobber(x)
+
+    def same(a, b):
+        if a[0] != b[0] if isinstance(a[0], str) and isinstance(b[0], str) else False:
+            return False
+        if isinstance(a[0], str):
+            return all(np.array_equal(x, y) if isinstance(x, np.ndarray) else x == y for x, y in zip(a[1:], b[1:]))
+        return len(a) == len(b) and all(same(x, y) for x, y in zip(a, b))
+
+    fresh = [("honeycomb_lattice(3)", lambda: eg.honeycomb_lattice(3, return_coloring=True)), ("hex_square_oct_lattice(2)", lambda: eg.hex_square_oct_lattice(2)),
+             ("tri_non_lattice(2)", lambda: eg.tri_non_lattice(2)), ("square_lattice(2,3)", lambda: eg.square_lattice(2, 3)), ("n_ladder(4)", lambda: eg.n_ladder(4, True)),
+             ("make_honeycomb(2)", lambda: eg.make_honeycomb(2)), ("make_honeycomb(5)", lambda: eg.make_honeycomb(5)), ("two_triangles()", lambda: eg.two_triangles()),
+             ("tutte_graph()", lambda: eg.tutte_graph()), ("single_plaquette(5)", lambda: eg.single_plaquette(5)),
+             ("higher_coordination_number_example(6)", lambda: eg.higher_coordination_number_example(6)), ("bridge_graph()", lambda: eg.bridge_graph()),
+             ("star_lattice_sheared()", lambda: eg.star_lattice_sheared()), ("multi_graph()", lambda: eg.multi_graph()), ("concave_plaquette()", lambda: eg.concave_plaquette()),
+             ("tri_square_pent()", lambda: eg.tri_square_pent())]
+    for name, f in fresh:
+        rep = mk(name + " twice", gen="fresh", call=name)
+        r1 = call(name, f, rep)
+        if r1 is None: continue
+        s1 = snap(r1)
+        clobber(r1)
+        r2 = call(name, f, rep)
+        if r2 is None: continue
+        if not safe(lambda: same(s1, snap(r2))):
+            rep("a second call returns different values after the first result was overwritten in place: the calls share state")
+        ctx.case(name + " twice")
     # ---- model
     outs = core.Driver().run_parallel(reqs)
     for (name, l, col), o in zip(meta, outs):
